@@ -195,6 +195,88 @@ Proof.
   - rewrite map_map. simpl. rewrite pairs_fst. reflexivity.
 Qed.
 
+(* ------------------------------------------------------------------ break points from data and plan *)
+
+Lemma map2_orb_length : forall a b n, length a = n -> length b = n -> length (map2 orb a b) = n.
+Proof.
+  induction a; intros b n Ha Hb; destruct b; simpl in *; try lia.
+  destruct n; [lia |]. f_equal. apply IHa; lia.
+Qed.
+
+Lemma map2_orb_nth : forall a b k, length a = length b ->
+  nth k (map2 orb a b) false = nth k a false || nth k b false.
+Proof.
+  induction a; intros b k H; destruct b; simpl in *; try lia.
+  - destruct k; reflexivity.
+  - destruct k; auto.
+Qed.
+
+Lemma col_any_fold : forall n rows acc,
+  length acc = n -> Forall (fun r => length r = n) rows ->
+  length (fold_left (fun acc r => map2 orb acc r) rows acc) = n
+  /\ forall k, nth k (fold_left (fun acc r => map2 orb acc r) rows acc) false
+               = nth k acc false || existsb (fun r => nth k r false) rows.
+Proof.
+  induction rows as [| r rows IH]; intros acc Ha HF; simpl.
+  - split; auto. intros. rewrite orb_false_r. reflexivity.
+  - inversion HF as [| ? ? Hr HF']; subst.
+    destruct (IH (map2 orb acc r)) as [L N]; auto.
+    { apply map2_orb_length; auto. }
+    split; auto. intros k. rewrite N, map2_orb_nth by lia. rewrite orb_assoc. reflexivity.
+Qed.
+
+Lemma nth_repeat_false : forall n k, nth k (repeat false n) false = false.
+Proof. induction n; destruct k; simpl; auto. Qed.
+
+(* _update_break_points: a column becomes a break point when it already is one or some row has a finite non-zero
+   value (a set flag, for the plan register) there *)
+Theorem update_break_points_spec : forall V (nz : V -> bool) bp arr,
+  Forall (fun r => length r = length bp) arr ->
+  length (update_break_points nz bp arr) = length bp
+  /\ forall k, nth k (update_break_points nz bp arr) false
+               = nth k bp false || existsb (fun r => nth k (map nz r) false) arr.
+Proof.
+  intros V nz bp arr HF. unfold update_break_points, col_any.
+  destruct (col_any_fold (length bp) (map (map nz) arr) (repeat false (length bp))) as [L N].
+  { apply repeat_length. }
+  { rewrite Forall_map. eapply Forall_impl; [| exact HF]. intros r Hr. simpl. rewrite map_length. exact Hr. }
+  split.
+  - apply map2_orb_length; auto.
+  - intros k. rewrite map2_orb_nth by lia. rewrite N, nth_repeat_false. simpl.
+    f_equal. clear. induction arr; simpl; auto. rewrite IHarr. reflexivity.
+Qed.
+
+Lemma initial_break_points_spec : forall n, (0 < n)%nat ->
+  length (initial_break_points n) = n /\ hd false (initial_break_points n) = true.
+Proof. intros. destruct n; [lia |]. simpl. rewrite repeat_length. auto. Qed.
+
+Lemma hd_nth0 : forall (l : list bool), hd false l = nth 0 l false.
+Proof. destruct l; reflexivity. Qed.
+
+(* the break-point vector the stacked-time simulator builds always has the length of the base span and its
+   first entry set, so [frames_tile] applies to it *)
+Theorem populate_base_break_points_wf : forall V (nz : V -> bool) n ucut pcut,
+  (0 < n)%nat ->
+  match ucut with Some a => Forall (fun r => length r = n) a | None => True end ->
+  match pcut with Some a => Forall (fun r => length r = n) a | None => True end ->
+  length (populate_base_break_points nz n ucut pcut) = n
+  /\ hd false (populate_base_break_points nz n ucut pcut) = true.
+Proof.
+  intros V nz n ucut pcut Hn Hu Hp. unfold populate_base_break_points.
+  destruct (initial_break_points_spec n Hn) as [L0 H0].
+  set (bp0 := initial_break_points n) in *.
+  assert (B1 : length (match ucut with Some a => update_break_points nz bp0 a | None => bp0 end) = n
+               /\ hd false (match ucut with Some a => update_break_points nz bp0 a | None => bp0 end) = true).
+  { destruct ucut as [a |]; auto.
+    destruct (update_break_points_spec V nz bp0 a) as [L N]; [rewrite L0; auto |].
+    split; [lia |]. rewrite hd_nth0, N, <- hd_nth0, H0. reflexivity. }
+  destruct B1 as [L1 H1].
+  set (bp1 := match ucut with Some a => update_break_points nz bp0 a | None => bp0 end) in *.
+  destruct pcut as [a |]; auto.
+  destruct (update_break_points_spec bool (fun b => b) bp1 a) as [L N]; [rewrite L1; auto |].
+  split; [lia |]. rewrite hd_nth0, N, <- hd_nth0, H1. reflexivity.
+Qed.
+
 (* ------------------------------------------------------------------ period by period = single-period frames *)
 
 Lemma break_periods_all : forall n a, break_periods (all_break_points n) (zrange_from a n) = zrange_from a n.
